@@ -958,6 +958,9 @@ def shrink(impl, lines, modes, pred, budget=60, auditor=None):
     tries = 0
     t0 = time.time()
     head = [l for l in cur if l.startswith("open") or l.startswith("db ")][: 1 + len(modes)]
+    senv = dict(os.environ)
+    senv["ASAN_OPTIONS"] = "detect_leaks=0:abort_on_error=1"
+    senv["VERIF_KV_ALARM"] = "20"
     while len(cur) > 3 and tries < budget and time.time() - t0 < 300:   # a failing call may cost the watchdog time of the harness each try
         chunk = max(1, len(cur) // n)
         reduced = False
@@ -967,13 +970,13 @@ def shrink(impl, lines, modes, pred, budget=60, auditor=None):
                 continue
             tries += 1
             clean(cand)
-            f, o, orc, rc, err = execute(impl, cand, modes)
+            f, o, orc, rc, err = execute(impl, cand, modes, env=senv)
             if pred(f, o, orc, rc):
                 cur = cand
                 n = max(n - 1, 2)
                 reduced = True
                 break
-            if tries >= budget:
+            if tries >= budget or time.time() - t0 >= 300:
                 break
         if not reduced:
             if chunk == 1:
@@ -1053,7 +1056,12 @@ def drive(run, profile, nscripts, nops, theorem_pid=None, asan=False, reopen=Fal
             path = os.path.join(work, "s%d.db" % n)
             ls, meta = gen_script(rng, profile, rng.range(nops // 3, nops), path, allow_reopen=reopen)
             scripts.append(("gen%d" % n, ls, meta))
+        nviol = 0
         for name, ls, meta in scripts:
+            if nviol >= 6:
+                # the verdict is settled; every further failing script costs the minimiser's and the watchdog's time
+                run.cov["scripts_skipped_after_6_violations"] = run.cov.get("scripts_skipped_after_6_violations", 0) + 1
+                continue
             clean(ls)
             final, outs, orc, rc, err = execute(impl, ls, meta["modes"], env=env, auditor=auditor)
             crashed = rc not in (0, None) or (outs and outs[-1] is None)
@@ -1075,7 +1083,8 @@ def drive(run, profile, nscripts, nops, theorem_pid=None, asan=False, reopen=Fal
                     if kind == "crash":
                         return r not in (0, None) or (o and o[-1] is None)
                     return any(b[1].split("  [line")[0] == first_msg for b in oc.bad)
-                small = shrink(impl, final, meta["modes"], pred, auditor=auditor)
+                nviol += 1
+                small = shrink(impl, final, meta["modes"], pred, auditor=auditor) if nviol <= 2 else final
                 clean(small)
                 run.violation({"script": small, "modes": meta["modes"], "kind": kind, "class": first_msg or "crash",
                                "harness": "h_kv", "failures": [b[1] for b in orc.bad[:5]]}, why)
